@@ -65,6 +65,12 @@ def _install():
             return res
         cls.register_method("outer", wrapper)
     tenalg.set_backend("core")
+    # load every backend of the computational manager once (from a throw-away thread), so that "known to the other
+    # manager" is a meaningful class of rejected names for both managers
+    def _load_all():
+        for nm in ("jax", "cupy", "numpy"):
+            tlb.set_backend(nm)
+    _run_in_fresh_thread(_load_all)
     _installed["done"] = True
 
 
@@ -80,10 +86,13 @@ class _Mgr:
             self.m = tlb
             self.names = ["numpy", "jax", "cupy"]
             self.base = "numpy"
+            # names this manager must reject: unknown everywhere, or known only to the *other* manager
+            self.bad = ["nope", "core", "einsum"]
         else:
             self.m = tenalg
             self.names = ["core", "einsum"]
             self.base = "core"
+            self.bad = ["nope", "numpy", "jax"]
 
     def get(self):
         return self.m.get_backend()
@@ -263,21 +272,24 @@ def _interpret(kind, history):
                 acted.add(t)
             elif k == "set_bad":
                 local = op["local"]
-                r = w.call(lambda: mgr.m.set_backend("nope", local_threadsafe=local))
+                bad = mgr.bad[op.get("bad", 0) % len(mgr.bad)]
+                r = w.call(lambda: mgr.m.set_backend(bad, local_threadsafe=local))
                 check(r[0] == "exc" and isinstance(r[1], ValueError), "rejected/set_must_raise_ValueError",
-                      lambda: f"step {step} ({what}): set_backend('nope') -> {r!r}")
+                      lambda: f"step {step} ({what}): set_backend({bad!r}) -> {r!r}")
                 rejected = True
                 n_rejected += 1
                 acted.add(t)
             elif k == "enter_bad":
                 local = op["local"]
 
+                bad = mgr.bad[op.get("bad", 0) % len(mgr.bad)]
+
                 def do_bad():
-                    cm = mgr.m.backend_context("nope", local_threadsafe=local)
+                    cm = mgr.m.backend_context(bad, local_threadsafe=local)
                     cm.__enter__()
                 r = w.call(do_bad)
                 check(r[0] == "exc" and isinstance(r[1], ValueError), "rejected/context_must_raise_ValueError",
-                      lambda: f"step {step} ({what}): backend_context('nope').__enter__ -> {r!r}")
+                      lambda: f"step {step} ({what}): backend_context({bad!r}).__enter__ -> {r!r}")
                 rejected = True
                 n_rejected += 1
                 acted.add(t)
@@ -339,8 +351,8 @@ _op = st.one_of(
     st.builds(lambda t, n, l: {"op": "enter", "t": t, "name": n, "local": l}, st.integers(0, N_THREADS - 1), st.integers(0, 2), st.booleans()),
     st.builds(lambda t, e: {"op": "exit", "t": t, "exc": e}, st.integers(0, N_THREADS - 1), st.booleans()),
     st.builds(lambda t, e: {"op": "exit", "t": t, "exc": e}, st.integers(0, N_THREADS - 1), st.booleans()),
-    st.builds(lambda t, l: {"op": "set_bad", "t": t, "local": l}, st.integers(0, N_THREADS - 1), st.booleans()),
-    st.builds(lambda t, l: {"op": "enter_bad", "t": t, "local": l}, st.integers(0, N_THREADS - 1), st.booleans()),
+    st.builds(lambda t, l, b: {"op": "set_bad", "t": t, "local": l, "bad": b}, st.integers(0, N_THREADS - 1), st.booleans(), st.integers(0, 2)),
+    st.builds(lambda t, l, b: {"op": "enter_bad", "t": t, "local": l, "bad": b}, st.integers(0, N_THREADS - 1), st.booleans(), st.integers(0, 2)),
     st.builds(lambda t: {"op": "query", "t": t}, st.integers(0, N_THREADS - 1)),
 )
 
